@@ -174,6 +174,27 @@ func BuildOverlay(repo, verifHome string, specs []HarnessSpec) (*Overlay, error)
 		}
 	}
 	harnessRoot := filepath.Join(verifHome, "harness")
+	// helper files declared for this property: a line "//verif:helper prop=C02"
+	// (repeatable) makes a harness-less file part of that property's overlay.
+	if len(specs) > 0 {
+		want := "//verif:helper prop=" + specs[0].Prop
+		filepath.WalkDir(harnessRoot, func(path string, d os.DirEntry, err error) error {
+			if err != nil || d.IsDir() || !strings.HasPrefix(filepath.Base(path), "zz_verif_") || !strings.HasSuffix(path, ".go") || files[path] {
+				return nil
+			}
+			b, err := os.ReadFile(path)
+			if err != nil {
+				return nil
+			}
+			for _, l := range strings.Split(string(b), "\n") {
+				if strings.TrimSpace(l) == want {
+					files[path] = true
+					break
+				}
+			}
+			return nil
+		})
+	}
 	for f := range files {
 		b, err := os.ReadFile(f)
 		if err != nil {
